@@ -7,6 +7,7 @@ import (
 	"fmt"
 	"sort"
 	"strconv"
+	stdsync "sync"
 	"time"
 
 	"github.com/esimov/gogu/bstree"
@@ -373,8 +374,10 @@ func concRun(p concProg, run func(bodies []func()) *vsync.Result) ([]tt.Op, []tt
 	zero := tt.Res{S: []int{}}
 	obj := &concObj{ty: p.Ty}
 	add := func(e tt.Op, r tt.Res) {
+		evMu.Lock()
 		ev = append(ev, e)
 		rs = append(rs, r)
+		evMu.Unlock()
 	}
 	for _, o := range p.Init {
 		o := o
@@ -682,4 +685,15 @@ func concExplore(p concProg, pb, max int, visit func([]tt.Op, []tt.Res, error) b
 		ev, rs, err := concRun(p, run)
 		return visit(ev, rs, err)
 	})
+}
+
+// logEv appends to an execution's event log.  Under the controlled scheduler one thread runs at a time, but a
+// thread released from a channel operation runs next to the scheduled one until its next scheduling
+// point: the log is guarded by a real mutex (not the rewritten one).
+var evMu stdsync.Mutex
+
+func logEv(ev *[]tt.Op, o tt.Op) {
+	evMu.Lock()
+	*ev = append(*ev, o)
+	evMu.Unlock()
 }
